@@ -136,6 +136,9 @@ def build(counts, base, mode='brace'):
         elif i > 0 or base != 'i':
             # one empty piece per call (two would be duplicates of each other): the others split into n written pieces
             out.append('|'.join(pieces + ['%s%d_%d' % (base, i, n)]))
+        elif mode == 'brace_bar':
+            # a `|` inside a brace alternative: {p1|p2,p3,...} is n-1 alternatives, the first of which splits in two
+            out.append('{%s|%s%s}' % (pieces[0] if pieces else '%s%d_0' % (base, i), '%s%d_%d' % (base, i, n), ''.join(',' + x for x in pieces[1:])) if n >= 3 else '|'.join(pieces + ['%s%d_%d' % (base, i, n)]))
         elif mode == 'split_tail':
             out.append('|'.join(pieces) + '|')
         elif mode == 'split_lead':
@@ -180,7 +183,7 @@ def run(ctx):
         samples = []
         known_hit = {}
         all_cases = [(L, inc, exc, 'brace') for (L, inc, exc) in gen_cases(ctx.quick, rng)]
-        all_cases += [(L, inc, exc, md) for (L, inc, exc) in gen_cases(ctx.quick, rng) for md in ('split_tail', 'split_lead', 'split_mid')
+        all_cases += [(L, inc, exc, md) for (L, inc, exc) in gen_cases(ctx.quick, rng) for md in ('split_tail', 'split_lead', 'split_mid', 'brace_bar')
                       if L is not None and 0 < L <= 33 and sum(inc) + sum(exc or []) <= 40 and inc[0] > 1]
         for (L, inc, exc, md) in all_cases:
             pats = build(inc, 'i', md)
